@@ -704,6 +704,18 @@ impl<'gc> WPtr<'gc> {
             WPtr::Dyn(g) => Ptr::Dyn(g.upgrade(mc)?),
         })
     }
+    /// resurrect through the type-erased weak pointer first (then typed, which must agree)
+    pub fn resurrect_erased_first(self, fc: &gc_arena::Finalization<'gc>) -> Option<Ptr<'gc>> {
+        let e = self.erase().resurrect(fc);
+        let t = self.resurrect(fc);
+        match (e, t) {
+            (Some(e), Some(t)) if Gc::ptr_eq(e, t.erase()) => Some(t),
+            (None, None) => None,
+            // disagreement: report as "no pointer" for a live target / a pointer for a dead one is
+            // judged by the caller; make it visible by returning the typed answer
+            (_, t) => t,
+        }
+    }
     pub fn resurrect(self, fc: &gc_arena::Finalization<'gc>) -> Option<Ptr<'gc>> {
         Some(match self {
             WPtr::Node(g) => Ptr::Node(g.resurrect(fc)?),
@@ -726,6 +738,12 @@ pub fn strong_is_dead<'gc>(fc: &gc_arena::Finalization<'gc>, p: Ptr<'gc>) -> boo
 }
 pub fn strong_resurrect<'gc>(fc: &gc_arena::Finalization<'gc>, p: Ptr<'gc>) {
     each_gc!(p, g => Gc::resurrect(fc, g), set s => Gc::resurrect(fc, set_erased(s)))
+}
+
+/// the same through the type-erased pointer form (`Gc<'gc, ()>`): every API that accepts any `T`
+/// must act on the allocation, not on the static pointee type
+pub fn strong_resurrect_erased<'gc>(fc: &gc_arena::Finalization<'gc>, p: Ptr<'gc>) {
+    Gc::resurrect(fc, p.erase())
 }
 
 // ---------------------------------------------------------------------------------------------
